@@ -153,11 +153,8 @@ Proof.
   intro X. apply cache_get_In in X. destruct X as [X1 X2]. apply filter_In in X1. tauto.
 Qed.
 
-Lemma In_cache_step e st f req ca : In e (cache_step st f req ca) -> (e = (req, f) /\ eligible f st = true) \/ In e ca.
-Proof.
-  unfold cache_step. destruct (eligible f st) eqn:E; [|auto].
-  intro X. apply In_cache_put in X. destruct X; auto.
-Qed.
+Lemma In_cache_step e st f req ca : In e (cache_step st f req ca) -> e = (req, f) \/ In e ca.
+Proof. unfold cache_step. apply In_cache_put. Qed.
 
 (* keys of a cache are unique: it is a map *)
 Definition ukeys (c : cache) : Prop := NoDup (map ckey c).
@@ -198,7 +195,7 @@ Proof.
 Qed.
 
 Lemma ukeys_step st f req ca : ukeys ca -> ukeys (cache_step st f req ca).
-Proof. unfold cache_step. destruct (eligible f st); [apply ukeys_put | auto]. Qed.
+Proof. unfold cache_step. apply ukeys_put. Qed.
 
 Lemma ukeys_unique c e1 e2 : ukeys c -> In e1 c -> In e2 c -> ckey e1 = ckey e2 -> e1 = e2.
 Proof.
@@ -307,10 +304,10 @@ Proof.
   apply IH in E. destruct r; lia.
 Qed.
 
-Lemma read_children_ilen fs st : forall cs m ca tot lr m' r,
-  read_children fs st cs m ca tot lr = (m', r) -> ilen m' = ilen m.
+Lemma read_children_ilen fs st : forall cs m ca tot lr al m' r,
+  read_children fs st cs m ca tot lr al = (m', r) -> ilen m' = ilen m.
 Proof.
-  induction cs as [|ch rest IH]; intros m ca tot lr m' r E; simpl in E; [inversion E; reflexivity|].
+  induction cs as [|ch rest IH]; intros m ca tot lr al m' r E; simpl in E; [inversion E; reflexivity|].
   destruct ch as [sp lo req perr|]; [|inversion E; reflexivity].
   destruct (get_feature (sp, lo) fs).
   - destruct perr; [inversion E; reflexivity|]. apply IH in E. exact E.
@@ -332,17 +329,17 @@ Proof.
   apply list_loop_ilen in E. intro X. inversion X; subst. exact E.
 Qed.
 
-Lemma after_read_ilen c m first m' r : after_read c m first = (m', r) -> ilen m' <= ilen m.
+Lemma after_read_ilen c m first al m' r : after_read c m first al = (m', r) -> ilen m' <= ilen m.
 Proof.
   unfold after_read.
   assert (Tail : forall m' r,
-     match m_total m, m_cache m with
+     match m_total m, al with
      | O, _ => (m, Good (st_Ready, false))
-     | _, [] => (m, Bad EOther)
+     | _, O => (m, Bad EOther)
      | _, _ => init_loop (S (length (m_cache m))) c m None
      end = (m', r) -> ilen m' <= ilen m).
   { clear m' r. intros m' r E. destruct (m_total m); [inversion E; lia|].
-    destruct (m_cache m) eqn:Ec; [inversion E; lia|]. rewrite <- Ec in E. apply init_loop_ilen in E. exact E. }
+    destruct al; [inversion E; lia|]. apply init_loop_ilen in E. exact E. }
   destruct (if first && _ && _ then find_space ns_StartTLS (c_feats c) else None) as [f|]; [|apply Tail].
   destruct (f_neg f && eligible f (m_bits m)); [|apply Tail]. apply init_loop_ilen.
 Qed.
@@ -351,15 +348,16 @@ Lemma negotiate_features_ilen c m first m' r :
   negotiate_features c m first = (m', r) ->
   match r with Good _ => ilen m' < ilen m | _ => ilen m' <= ilen m end.
 Proof.
-  unfold negotiate_features. destruct (server m).
+  unfold negotiate_features. change (ilen m) with (ilen (set_rdy false m)).
+  generalize (set_rdy false m). clear m. intro m. cbv zeta. destruct (server m).
   - destruct (write_features c m) as [m1 r1] eqn:Ew. apply write_features_ilen in Ew.
     destruct r1 as [u|e|]; try (intro X; inversion X; subst; lia).
     intro X. apply recv_loop_ilen in X. destruct r; lia.
   - destruct (read RPFeatures m) as [m1 o] eqn:Er. pose proof (read_ilen _ _ _ _ Er) as L.
     destruct (features_of o) as [cs|] eqn:Ef.
     + assert (L' : S (ilen m1) = ilen m) by (destruct o; [exact L | discriminate]).
-      destruct (read_children _ _ _ _ _ _ _) as [m2 r2] eqn:Ec. apply read_children_ilen in Ec.
-      destruct r2 as [[[ca tot] lr]|e|]; try (intro X; inversion X; subst; lia).
+      destruct (read_children _ _ _ _ _ _ _ _) as [m2 r2] eqn:Ec. apply read_children_ilen in Ec.
+      destruct r2 as [[[[ca tot] lr] al]|e|]; try (intro X; inversion X; subst; lia).
       intro X. apply after_read_ilen in X. unfold ilen in *. simpl in *. destruct r; lia.
     + intro X. inversion X; subst. destruct o; lia.
 Qed.
